@@ -3,6 +3,7 @@
 package type3
 
 import (
+	hpke "github.com/cisco/go-hpke"
 	"crypto/elliptic"
 
 	"github.com/cloudflare/pat-go/ecdsa"
@@ -35,8 +36,22 @@ func specPadLen(k int) int {
 //@ assigns none
 //@ end
 
+// SpecUnpad: the padded name without its trailing zero bytes.
+//
+//@ spec rec
+func SpecUnpad(p string) string {
+	if len(p) == 0 {
+		return ""
+	}
+	if p[len(p)-1] != 0 {
+		return p
+	}
+	return SpecUnpad(p[:len(p)-1])
+}
+
 //@ func unpadOriginName(paddedOriginName []byte) (res string)
 //@ props C03 C20 C16 C07
+//@ ensures[C07] res == SpecUnpad(string(paddedOriginName))
 //@ ensures len(res) <= len(paddedOriginName) && res == string(paddedOriginName[:len(res)])
 //@ ensures forall(len(res), len(paddedOriginName), func(i int) bool { return paddedOriginName[i] == 0 })
 //@ ensures len(res) > 0 ==> res[len(res)-1] != 0
@@ -45,6 +60,7 @@ func specPadLen(k int) int {
 //@ loop 0 vars(lastNonZero int)
 //@   invariant -1 <= lastNonZero && lastNonZero < len(paddedOriginName)
 //@   invariant forall(lastNonZero+1, len(paddedOriginName), func(i int) bool { return paddedOriginName[i] == 0 })
+//@   invariant[C07] SpecUnpad(string(paddedOriginName)) == SpecUnpad(string(paddedOriginName[:lastNonZero+1]))
 //@   decreases lastNonZero + 1
 //@ end
 
@@ -424,3 +440,121 @@ func specUnblinded(c elliptic.Curve, x, y, hi, k Mathint) (Mathint, Mathint) {
 	kInv := ModInv(k, n)
 	return ECMulX(c, kInv, bx, by), ECMulY(c, kInv, bx, by)
 }
+
+// ---------------------------------------------------------------------------
+// Issuer (C07, C03)
+
+// specSuiteOK: a cipher suite assembled from known code points.
+//
+//@ spec
+func specSuiteOK(s hpke.CipherSuite) bool {
+	return s.KEM != nil && s.KDF != nil && s.AEAD != nil
+}
+
+// struct { uint8 key_id; HpkeKemId kem_id; HpkePublicKey public_key; HpkeKdfId kdf_id; HpkeAeadId aead_id; } EncapKey
+//
+//@ spec
+func specEncapKeyEnc(id uint8, s hpke.CipherSuite, pk hpke.KEMPublicKey) string {
+	return B1(id) + U16(uint16(KEMIdOf(s.KEM))) + KEMPubEnc(pk) + U16(uint16(KDFIdOf(s.KDF))) + U16(uint16(AEADIdOf(s.AEAD)))
+}
+
+//@ func (k EncapKey) Marshal() (res []byte)
+//@ props C04 C07 C16
+//@ safety C03 C04
+//@ requires specSuiteOK(k.suite) && k.publicKey != nil
+//@ ensures string(res) == specEncapKeyEnc(k.id, k.suite, k.publicKey) && fresh(res)
+//@ assigns none
+//@ end
+
+// specAAD: the associated data that binds an encrypted origin token request to the issuer configuration
+// and to the request key: key_id || kem_id || kdf_id || aead_id || token_type || request_key || SHA-256(EncapKey).
+//
+//@ spec
+func specAAD(id uint8, s hpke.CipherSuite, pk hpke.KEMPublicKey, requestKey string) string {
+	return B1(id) + U16(uint16(KEMIdOf(s.KEM))) + U16(uint16(KDFIdOf(s.KDF))) + U16(uint16(AEADIdOf(s.AEAD))) + U16(RateLimitedTokenType) + requestKey + SHA256(specEncapKeyEnc(id, s, pk))
+}
+
+// specNameKeyOK: an issuer name key as the constructors build it.
+//
+//@ spec
+func specNameKeyOK(k PrivateEncapKey) bool {
+	return specSuiteOK(k.suite) && k.publicKey != nil && k.privateKey != nil && KEMPubEnc(k.publicKey) == KEMPubOfPriv(k.privateKey)
+}
+
+// specNameCtx: the HPKE context of a request under the issuer's name key (info "TokenRequest").
+//
+//@ spec
+func specNameCtx(k PrivateEncapKey, enc string) Mathint {
+	return HPKECtx(KEMPubOfPriv(k.privateKey), enc, "TokenRequest", KEMIdOf(k.suite.KEM), KDFIdOf(k.suite.KDF), AEADIdOf(k.suite.AEAD))
+}
+
+// specInnerOK: a complete inner token request (token_key_id, blinded_msg[256], padded_origin<0..2^16-1>).
+//
+//@ spec
+func specInnerOK(pt string) bool {
+	return len(pt) >= 259 && len(pt)-259 >= int(pt[257])*256+int(pt[258])
+}
+
+//@ spec
+func specInnerOrigin(pt string) string {
+	return pt[259 : 259+int(pt[257])*256+int(pt[258])]
+}
+
+// decryptOriginTokenRequest succeeds only if the encapsulated key is complete, the ciphertext opens under the
+// issuer's own name key with exactly specAAD as associated data, and the plaintext is a complete inner request.
+//
+//@ func decryptOriginTokenRequest(nameKey PrivateEncapKey, requestKey []byte, encryptedTokenRequest []byte) (inner InnerTokenRequest, secret []byte, err error)
+//@ props C03 C07 C16
+//@ requires specNameKeyOK(nameKey)
+//@ let npk = KEMNpk(KEMIdOf(nameKey.suite.KEM))
+//@ let ctx = specNameCtx(nameKey, string(encryptedTokenRequest[:npk]))
+//@ let aad = specAAD(nameKey.id, nameKey.suite, nameKey.publicKey, string(requestKey))
+//@ let ct = string(encryptedTokenRequest[npk:])
+//@ ensures err == nil ==> len(encryptedTokenRequest) >= npk && HPKEOpenOK(ctx, 0, aad, ct)
+//@ ensures err == nil ==> specInnerOK(HPKEOpen(ctx, 0, aad, ct))
+//@ ensures err == nil ==> inner.tokenKeyId == HPKEOpen(ctx, 0, aad, ct)[0] && string(inner.blindedMsg) == HPKEOpen(ctx, 0, aad, ct)[1:257] && string(inner.paddedOrigin) == specInnerOrigin(HPKEOpen(ctx, 0, aad, ct))
+//@ ensures err == nil ==> string(secret) == HPKEExport(ctx, "TokenResponse", AEADNk(AEADIdOf(nameKey.suite.AEAD))) && fresh(secret)
+//@ ensures err != nil ==> secret == nil
+//@ assigns none
+//@ end
+
+// specRLIssuerOK: an issuer as NewRateLimitedIssuer / AddOrigin* build it: P-384, a consistent name key, a
+// token key, and usable origin index keys (every registered key has a non-negative scalar).
+//
+//@ spec
+func specRLIssuerOK(i RateLimitedIssuer) bool {
+	return i.curve == CurveP384() && specNameKeyOK(i.nameKey) && i.tokenKey != nil &&
+		ForallStr(func(o string) bool {
+			k := i.originIndexKeys[o]
+			return !MapHas(i.originIndexKeys, o) || (k != nil && k.D != nil && BigVal(k.D) >= 0 && BitLenOf(BigVal(k.D)) <= 1<<43)
+		})
+}
+
+// C07: the issuer answers only a request that parses completely (exact length, token type 0x0003, a
+// 96-byte signature), whose encrypted part opens under the issuer's own name key with the request key bound
+// in the associated data, whose inner request is complete and names a registered origin, and whose
+// signature verifies under the request key over the whole request. Every failure returns an error and no
+// response. Nothing that existed before the call is written (C16, C17).
+//
+//@ func (i RateLimitedIssuer) Evaluate(encodedRequest []byte) (resp []byte, blindedKey []byte, err error)
+//@ props C03 C07 C16 C17
+//@ requires specRLIssuerOK(i)
+//@ let n = int(encodedRequest[83])*256 + int(encodedRequest[84])
+//@ let rk = string(encodedRequest[2:51])
+//@ let nk = string(encodedRequest[51:83])
+//@ let enc = string(encodedRequest[85 : 85+n])
+//@ let npk = KEMNpk(KEMIdOf(i.nameKey.suite.KEM))
+//@ let ctx = specNameCtx(i.nameKey, enc[:npk])
+//@ let aad = specAAD(i.nameKey.id, i.nameKey.suite, i.nameKey.publicKey, rk)
+//@ let pt = HPKEOpen(ctx, 0, aad, enc[npk:])
+//@ ensures[C07] err == nil ==> len(encodedRequest) >= 85 && encodedRequest[0] == 0 && encodedRequest[1] == 3 && n >= 1 && len(encodedRequest) == 85+n+96
+//@ ensures[C07] err == nil ==> n >= npk
+//@ ensures[C07] err == nil ==> HPKEOpenOK(ctx, 0, aad, enc[npk:])
+//@ ensures[C07] err == nil ==> specInnerOK(pt)
+//@ ensures[C07] err == nil ==> MapHas(i.originIndexKeys, SpecUnpad(specInnerOrigin(pt)))
+//@ ensures[C07] err == nil ==> specSigOK(rk, nk, enc, encodedRequest[85+n:85+n+96])
+//@ ensures err != nil ==> resp == nil && blindedKey == nil
+//@ ensures err == nil ==> fresh(resp) && fresh(blindedKey)
+//@ assigns none
+//@ alloc 64*len(encodedRequest) + 8192
+//@ end
